@@ -67,8 +67,8 @@ def make_bounded_replay(pid, f):
     h = hashlib.sha256(f["id"].encode()).hexdigest()[:10]
     path = os.path.join(ROOT, "replays", "%s-%s.json" % (pid, h))
     doc = dict(property=pid, obligation=f["id"], kind="bounded-standin", function=f.get("fn"),
-               verus_message=f["message"], verus_diagnostic=f["rendered"], failing_input=f["found"],
-               note="bounded stand-in: the unit could not be processed by Verus on this tree; the input below was found by the twin's small-universe enumeration against the real code")
+               message=f["message"], verus_message=f["message"], verus_diagnostic=f["rendered"], failing_input=f["found"],
+               note="bounded stand-in (labelled bounded, never counted as proved): either for a callee whose contract is ASSUMED by the proofs, or for a unit Verus could not process on this tree; the input below was found by the twin's small-universe enumeration and is replayed against the real code")
     json.dump(doc, open(path, "w"), indent=1)
     return path
 
